@@ -278,7 +278,12 @@ def run(res):
             res.violation("multidir-read-differs", "reading over several top-level directories is not the union of their samples", hist,
                           [(a, len(t)) for a, t in want], [(int(k), len(v)) for k, v in sorted(got.items())])
     res.assumptions += ["the same file period is never recorded in two different top-level directories (the format does not allow it)"]
-    res.trusted += ["Model/WriterCore.v (existing-final refusal, exclusive tmp creation, session restart) is a hand model tied by this correspondence"]
+    res.trusted += [T3_TRUST, "Model/WriterCore.v (existing-final refusal, exclusive tmp creation, session restart) is a hand model tied by this correspondence"]
+
+
+T3_TRUST = ("translate/attrs2gallina.py (T3): symbolic reading of the straight-line HDF5 attribute code of "
+            "digital_rf_write_metadata / digital_rf_handle_metadata from clang's JSON AST and of recreate_properties_file from "
+            "Python's ast; fail-closed; its output is also compared with the attributes of real files on every run")
 
 
 def replay(res, rp):
